@@ -42,7 +42,7 @@ FUNCTIONS = {"col_sum": col_sum, "col_first_two": col_first_two, "np.log1p": np.
 SKLEARN = {c.__name__: c for c in [KMeans, PCA, DummyRegressor, LinearRegression, LogisticRegression, Ridge, GaussianNB,
                                    KBinsDiscretizer, MinMaxScaler, StandardScaler, DecisionTreeClassifier, DecisionTreeRegressor]}
 HARNESS = {c.__name__: c for c in [H.RecordingRegressor, H.RecordingClassifier, H.CentroidClassifier, H.FailingRegressor,
-                                   H.FailingClassifier, H.FailingTransformer]}
+                                   H.FailingClassifier, H.FailingTransformer, H.FakeTSNE]}
 
 _MODS = {
     "ApproximateNMFPredictor": "mlmodel.anmf_predictor", "CategoriesToIntegers": "mlmodel.categories_to_integers",
@@ -553,7 +553,10 @@ class _PTSNE(Entry):
 
     def spec(self, draw):
         return dict(cls=self.name, params=dict(normalizer=draw(st.one_of(st.none(), st.just(dict(cls="StandardScaler", params={})))),
-                                               transformer=dict(cls="PCA", params=dict(n_components=1)), estimator=s_regressor(draw),
+                                               transformer=draw(st.sampled_from([dict(cls="PCA", params=dict(n_components=1)),
+                                                                                 dict(cls="FakeTSNE", params=dict(perplexity=5.0)),
+                                                                                 dict(cls="FakeTSNE", params=dict(perplexity=30.0))])),
+                                               estimator=s_regressor(draw),
                                                normalize=draw(st.booleans()), keep_tsne_outputs=draw(st.booleans())))
 
     def data(self, draw):
